@@ -112,9 +112,27 @@ func codeResultStrings(res map[string]*Term) map[string]string {
 	return out
 }
 
-func compareResult(specVals map[string]string, code map[string]*Term, entries []string) (bool, string) {
+// absentLookup: t reads (a field of) m[k] on a path on which k is known not to be a key of m: the zero value.
+func absentLookup(t *Term, ps *PathState) bool {
+	for t != nil && t.Op == "field" && len(t.Args) == 1 {
+		t = t.Args[0]
+	}
+	if t == nil || t.Op != "lookup" || ps == nil {
+		return false
+	}
+	ok := &Term{Op: "lookupok", Args: t.Args}
+	has, known := ps.Bools[ok.String()]
+	return known && !has
+}
+
+func compareResult(specVals map[string]string, code0 map[string]*Term, entries []string, ps *PathState) (bool, string) {
 	cs := map[string]string{}
-	for k, t := range code {
+	code := map[string]*Term{}
+	for k, t := range code0 {
+		if absentLookup(t, ps) {
+			continue // reading a missing map entry yields the zero value
+		}
+		code[k] = t
 		cs[k] = t.String()
 	}
 	if _, bare := specVals["r0"]; bare {
@@ -332,7 +350,7 @@ func checkOp(r *Report, a *API, name string, spec *OpSpec, aspects aspectSet) {
 						for k, e := range rc.vals {
 							want[k] = evalValue(e, ps, nil)
 						}
-						ok, d := compareResult(want, p.Results, spec.MapEntries)
+						ok, d := compareResult(want, p.Results, spec.MapEntries, ps)
 						key := "A6 " + name + " result"
 						if rc.c.When != "true" {
 							key += " " + rc.c.When
